@@ -16,6 +16,15 @@ OBLIGATIONS = [
     "KafVerif.C33.checkpoint_covered_stat_skip",
     "KafVerif.C33.clean_cycle_delivers_stat_skip",
     "KafVerif.C33.skip_le_loses_record",
+    "KafVerif.C33.fullListing_sorted",
+    "KafVerif.C33.checkpoint_covered_listing",
+    "KafVerif.C33.checkpoint_covered_listing_growing",
+    "KafVerif.C33.clean_cycle_delivers_listing",
+    "KafVerif.C33.checkpoint_covered_stale_listing",
+    "KafVerif.C33.listManifest_prefix",
+    "KafVerif.C33.probe_error_drops_middle_segment",
+    "KafVerif.C33.probe_error_loss_is_permanent",
+    "KafVerif.C33.unsorted_listing_loses_records",
     "KafVerif.C33.continue_loses_records",
     "KafVerif.C33.lfs_drop_loses_records",
     "KafVerif.C33.noop_drops_offset_zero",
@@ -26,7 +35,9 @@ BUILDS = {
     "skeleton": ("skeleton", "./cmd/verif_c33", ["C33"]),
 }
 TECHNIQUE = ("Lean 4 invariant proof over a model of the polling loop + Go/Lean differential correspondence through "
-             "the real Processor.Run (virtual time via testing/synctest; skeleton on the real clock) + direct monitors")
+             "the real Processor.Run (virtual time via testing/synctest; skeleton on the real clock), fed by scripted listers "
+             "and by the real iceberg/sql S3 and manifest listers over an in-process S3 endpoint with a per-request fault "
+             "oracle + direct monitors")
 LEVEL_TEXT = ("proof: checkpoint_covered — for every listing (offset order per partition), both checkpoint stores and every "
               "history of polling cycles with arbitrary listing/claim/load/decode/LFS/sink/commit failures and lease "
               "losses, every record at or below its partition's checkpoint is in the sink (induction over the history on "
@@ -35,18 +46,36 @@ LEVEL_TEXT = ("proof: checkpoint_covered — for every listing (offset order per
               "every record of the leased partition, offset 0 included, in the sink; checkpoint_covered_stat_skip / "
               "clean_cycle_delivers_stat_skip — both still hold for a loop that skips the download of a segment whose listed "
               "MaxOffset is strictly below the next offset to deliver (refinement of the plain loop), and skip_le_loses_record — "
-              "the off-by-one comparison loses a single-record segment. Three witness theorems show the code "
+              "the off-by-one comparison loses a single-record segment. The lister is part of the model: ListCompleted "
+              "over a bucket of .kfs/.index pairs with an S3 fault oracle answers an error (the tick is skipped) or the "
+              "complete listing sorted by (partition, base offset); fullListing_sorted derives the offset order the loop "
+              "needs from the sort and from unique keys / ordered segments in the bucket; checkpoint_covered_listing(_growing) "
+              "and clean_cycle_delivers_listing restate safety and progress over ALL completed segments of the bucket, "
+              "listed this tick or not; checkpoint_covered_stale_listing — the most general form: segments complete between "
+              "ticks and every answered listing is any per-partition prefix of the complete one (a stale manifest, a cached "
+              "listing), with listManifest_prefix for the sql manifest lister. Witnesses for the listers before the fixes: "
+              "probe_error_drops_middle_segment / probe_error_loss_is_permanent (a footer probe that fails once drops a middle "
+              "segment, the next one commits past it, no later tick ever writes it) and unsorted_listing_loses_records (a "
+              "manifest in file order). Three more witness theorems show the loop "
               "before fixes/C33-*.patch violates the property. The model is tied to the current source by running the "
               "same failure timelines through the three real Run loops and the model and diffing lease, records written "
-              "and checkpoints after every tick, plus a monitor inside the fake CommitOffset.")
+              "and checkpoints after every tick, plus a monitor inside the fake CommitOffset; a fifth of the timelines run the real "
+              "s3Lister (iceberg, sql) and manifestLister (sql; fresh, unsorted and stale manifest.json, fallback) over an "
+              "in-process S3 endpoint whose ListObjectsV2 / manifest GetObject / per-segment footer probe fail once on demand, "
+              "and the listing each tick produced is diffed against the model's as well.")
 LEVEL_NOTE = ("Liveness is a one-cycle lemma (no fairness argument about how often failure-free cycles occur). A worker "
               "processes only the partition it holds the lease for (the repo's tests pin this); delivery of other "
               "partitions needs other workers and is not claimed. Schema validation (iceberg, lenient mode drops invalid "
               "records by design) is off; LFS modes other than resolve are not exercised. For the iceberg variant the real "
               "etcdStore (claim txn, renew, release, LoadOffset, CommitOffset) runs over an in-memory clientv3 KV/Lease; "
-              "failures are injected in front of it (a CommitOffset that fails after its first Put is not modelled).")
+              "failures are injected in front of it (a CommitOffset that fails after its first Put is not modelled). "
+              "Listers: the skeleton has only a placeholder lister; the iceberg etcdLister (topic/partition filter from the "
+              "metadata snapshot) and the sql cachedLister / time-index enrichment are not run (a cached or stale listing is "
+              "covered by checkpoint_covered_stale_listing as a per-partition prefix); S3 faults are HTTP 403 answers (not "
+              "retried by the SDK), a listed object that disappears before its probe (NoSuchKey, skipped by design) is not "
+              "generated; ListObjectsV2 pagination is one page.")
 ASSUMPTIONS = [
-    "ListCompleted returns a partition's segments in offset order (discovery sorts by topic, partition, base offset); between ticks the listing only grows at the end of a partition (checkpoint_covered_growing), completed segments never disappear",
+    "bucket: one .kfs/.index pair per (topic, partition, base offset) key, a segment's records are in offset order and a segment with a larger base offset holds larger offsets (BucketWF) — the offset order of ListCompleted's answer is then a theorem (fullListing_sorted) and is checked on the real listers; between ticks the bucket only grows at the end of a partition, completed segments never disappear; a listing that is not the complete one is a per-partition prefix of it (stale manifest, cache)",
     "Decode returns the same records for the same segment on every successful call",
     "one worker; a second worker holding an expired lease concurrently is not modelled (it can only add duplicates or move the checkpoint backwards)",
     "time: every tick is an atomic step; a failing lease renewal is delivered between two ticks (the harness delays it by one virtual second)",
@@ -132,6 +161,100 @@ def gen_case(rng, variant, ncycles, quiet=False):
     return lines
 
 
+def gen_lister_case(rng, variant, ncycles):
+    """A case whose listing comes from the REAL lister of the module (iceberg/sql `s3Lister`, sql
+    `manifestLister` with the s3Lister as fallback) over an in-process S3 endpoint.  The `seg` lines are the
+    bucket's completed segments (in `manifest` mode also the order of the manifest entries, so half of the
+    cases shuffle them); a cycle's 5th field names the S3 requests of that tick's ListCompleted that fail
+    once: L = ListObjectsV2, m = GetObject of manifest.json, p<i> = footer probe of segment i."""
+    # "stale": manifest.json is written at the first tick and never refreshed — later segments are listed
+    # only by the ticks whose manifest read fails (fallback S3 lister)
+    lister = "s3" if variant == "iceberg" else rng.choice(["s3", "s3", "manifest", "manifest", "stale"])
+    store = "noop" if rng.chance(1, 8) else "mem"
+    if variant == "iceberg" and store == "mem" and rng.chance(1, 3):
+        store = "etcd"
+    tps = sorted(set(rng.choice([0, 1, 2, 3, 5]) for _ in range(rng.choice([1, 1, 2]))))
+    segs = []
+    nxt = {}
+    for tp in tps:
+        o = 0 if rng.chance(4, 5) else rng.range(1, 40)
+        for _ in range(rng.range(2, 4)):
+            n = 1 if rng.chance(1, 4) else rng.range(1, 3)
+            offs = []
+            for _ in range(n):
+                offs.append(o)
+                o += 1 if rng.chance(5, 6) else rng.range(2, 4)
+            segs.append((tp, offs))
+            if rng.chance(1, 10):
+                o += rng.range(1, 3)
+        nxt[tp] = o
+    if rng.chance(1, 2):
+        # bucket keys have no order of their own; a manifest may name its entries in any order
+        order = []
+        pool = list(segs)
+        while pool:
+            order.append(pool.pop(rng.range(0, len(pool) - 1)))
+        segs = order
+    lines = ["case %s %s lister=%s" % (variant, store, lister)]
+    for tp, offs in segs:
+        lines.append("seg %d %s" % (tp, ",".join(map(str, offs))))
+    grow = rng.chance(1, 3) or lister == "stale"
+    for c in range(ncycles):
+        if grow and c > 0 and rng.chance(1, 3):
+            tp = rng.choice(sorted(nxt))
+            o = nxt[tp] + (0 if rng.chance(4, 5) else rng.range(1, 3))
+            offs = list(range(o, o + rng.range(1, 2)))
+            nxt[tp] = offs[-1] + 1
+            segs.append((tp, offs))
+            lines.append("seg %d %s" % (tp, ",".join(map(str, offs))))
+        s3 = []
+        if c < 2 and rng.chance(1, 2) or rng.chance(1, 5):
+            if lister in ("manifest", "stale") and rng.chance(2, 3):
+                s3.append("m")
+            k = rng.choice([1, 1, 1, 2])
+            for _ in range(k):
+                if rng.chance(1, 8):
+                    s3.append("L")
+                else:
+                    # not the first listed segment of its partition, if there is a choice
+                    i = rng.range(0, len(segs) - 1)
+                    first = min((offs[0], j) for j, (tp, offs) in enumerate(segs) if tp == segs[i][0])[1]
+                    if i == first and rng.chance(3, 4):
+                        later = [j for j, (tp, _) in enumerate(segs) if tp == segs[i][0] and j != first]
+                        if later:
+                            i = rng.choice(later)
+                    s3.append("p%d" % i)
+        claim = "-"
+        if rng.chance(1, 8):
+            claim = "".join("1" if rng.chance(1, 2) else "0" for _ in segs)
+        fs = []
+        for tp, offs in segs:
+            if rng.chance(5, 6):
+                fs.append("n")
+            else:
+                fs.append(rng.choice(list("ldsc")))
+        lines.append("cycle %d %s %s" % (1 if rng.chance(1, 20) else 0, claim, ",".join(fs)) +
+                     (" s3=" + "+".join(sorted(set(s3))) if s3 else ""))
+        if rng.chance(1, 12):
+            lines.append("lost")
+    return lines
+
+
+def s3_faults(cycle_line):
+    f = cycle_line.split()
+    return [x for x in f[4][3:].split("+") if x] if len(f) > 4 and f[4].startswith("s3=") else []
+
+
+def listing_clean(case_line, cycle_line):
+    """Does this tick's ListCompleted have to succeed with the complete listing?"""
+    s3 = s3_faults(cycle_line)
+    if "lister=stale" in case_line.split() and "m" not in s3:
+        return False        # an old manifest is read: only the segments it names have to be delivered
+    if "lister=manifest" in case_line.split() and "m" not in s3:
+        return True         # the manifest is read; the S3 listing and the probes are not used
+    return not any(x == "L" or x.startswith("p") for x in s3)
+
+
 def parse_line(l):
     return dict(x.split("=", 1) for x in l.split()[1:] if "=" in x)
 
@@ -177,7 +300,8 @@ def monitor(case_lines, out_lines):
                 if off <= int(v) and (tp, off) not in sink:
                     return ("checkpoint-past-unwritten-record",
                             "checkpoint of partition %d is %s but offset %d was never written" % (tp, v, off))
-        if oracle[1] == "0" and all(f == "n" for f in oracle[3].split(",")) and kv["lease"] != "-":
+        if (oracle[1] == "0" and all(f == "n" for f in oracle[3].split(",")) and kv["lease"] != "-"
+                and listing_clean(case_lines[0], src)):
             tp = int(kv["lease"])
             for t, offs in segs:
                 for off in offs:
@@ -254,6 +378,12 @@ def compare(ck, name, cases, results, rerun=None):
         commits = len(set(parse_line(l)["cp"] for l in r if l.startswith("cycle")))
         ck.count("%s_cases" % name)
         ck.count("faults_injected", faults)
+        if "lister=" in c[0]:
+            ck.count("%s_real_lister_cases" % name)
+            ck.count("s3_faults_injected", sum(len(s3_faults(l)) for l in c if l.startswith("cycle")))
+            ck.count("footer_probe_faults", sum(1 for l in c if l.startswith("cycle") for x in s3_faults(l) if x.startswith("p")))
+            ck.count("listings_failed", sum(1 for l in r if l.endswith("listed=err")))
+            ck.count("listings_answered", sum(1 for l in r if " listed=" in l and not l.endswith("listed=err")))
         ck.count("lease_losses", sum(1 for l in r if l == "lost"))
         ck.count("cycles", sum(1 for l in r if l.startswith("cycle")))
         ck.case((name, tuple(c)), nontrivial=(faults > 0 and commits > 1),
@@ -319,6 +449,28 @@ def corpus(variant):
         for k, body in enumerate(singles):
             store = "noop" if (k == 1 and st != "next") else "mem"
             out.append(["case %s %s" % (variant, store) + (" stats=" + st if st else "")] + body)
+    # the REAL listers over the in-process S3 endpoint: the footer probe of the middle segment fails once
+    # (pre-fix: the segment is dropped, the later one commits past it); ListObjectsV2 fails; shuffled bucket;
+    # a segment completes between ticks; per-segment faults are indexed by seg line, not by listing position
+    if variant in ("iceberg", "sql"):
+        out.append(["case %s mem lister=s3" % variant, "seg 0 0,1", "seg 0 2,3", "seg 0 4,5",
+                    "cycle 0 - n,n,n s3=p1", "cycle 0 - n,n,n", "cycle 0 - n,n,n"])
+        out.append(["case %s mem lister=s3" % variant, "seg 0 4,5", "seg 1 0", "seg 0 0,1", "seg 0 2,3",
+                    "cycle 0 - n,n,n,n s3=L", "cycle 0 - n,n,n,d", "cycle 0 - n,n,n,n s3=p0", "cycle 0 - n,n,n,n"])
+        out.append(["case %s noop lister=s3" % variant, "seg 2 7", "seg 2 8,9", "seg 2 10", "cycle 0 - n,n,n s3=p2",
+                    "cycle 0 - n,n,n s3=p1", "seg 2 11", "cycle 0 - n,n,n,n s3=p3", "cycle 0 - n,n,n,n"])
+    if variant == "sql":
+        # manifest.json names the segments out of offset order (pre-fix: handed out as is); the manifest cannot be
+        # read and the fallback S3 lister meets a failing probe / a failing ListObjectsV2
+        out.append(["case sql mem lister=manifest", "seg 0 2,3", "seg 0 0,1", "seg 0 4,5", "cycle 0 - n,n,n", "cycle 0 - n,n,n"])
+        out.append(["case sql mem lister=manifest", "seg 0 2,3", "seg 0 0,1", "seg 0 4,5", "cycle 0 - n,n,n s3=m",
+                    "cycle 0 - n,n,n s3=m+p0", "seg 0 6", "cycle 0 - n,n,n,n s3=L+m", "cycle 0 - n,n,n,n s3=p1",
+                    "cycle 0 - n,n,n,n"])
+        out.append(["case sql mem lister=stale", "seg 0 2,3", "seg 0 0,1", "cycle 0 - n,n", "seg 0 4,5", "cycle 0 - n,n,n",
+                    "cycle 0 - n,n,n s3=m", "seg 0 6", "cycle 0 - n,n,n,n", "cycle 0 - n,n,n,n s3=m+p1", "cycle 0 - n,n,n,n s3=m",
+                    "cycle 0 - n,n,n,n"])
+        out.append(["case sql mem lister=manifest", "seg 1 3", "seg 0 0", "seg 1 0,1,2", "seg 0 1", "cycle 0 10 n,n,n,n s3=m+p2",
+                    "cycle 0 10 n,n,n,n", "lost", "cycle 0 - n,n,n,n", "cycle 0 - n,n,n,n"])
     if variant == "iceberg":
         out.append(["case iceberg mem", "seg 0 0,1,2", "cycle 0 - f1", "cycle 0 - n"])
         out.append(["case iceberg mem", "seg 0 0,1,2", "seg 0 3", "cycle 0 - f0+2,n", "cycle 0 - n,n"])
@@ -358,7 +510,10 @@ def run(ck):
     ck.cov["rule"] = ("one case = one set of completed segments (1-3 partitions, 1-4 segments each, offsets from 0 or a "
                       "base, gaps and empty segments; in 1/3 of the cases most segments hold exactly one record; sql: the "
                       "listing carries MinOffset/MaxOffset statistics as the real lister computes them, or none) plus a timeline of polling cycles with per-segment failure oracles, "
-                      "claim/list failures and lease losses, generated from VERIF_SEED; non-trivial when at least one "
+                      "claim/list failures and lease losses, generated from VERIF_SEED; a further 60 (quick) timelines per "
+                      "processor take the listing from the real S3 / manifest lister over an in-process S3 endpoint (bucket = the "
+                      "seg lines, shuffled in half of the cases; per tick a set of S3 requests that fail once: ListObjectsV2, "
+                      "manifest GetObject, footer probe of segment i, mostly a segment in the middle of a partition); non-trivial when at least one "
                       "failure was injected and the checkpoint moved; distinct = distinct scenario texts")
     # skeleton: real clock, all cases concurrently, few ticks — start it first, collect it last
     nsk = 40 if quick else 200
@@ -394,6 +549,10 @@ def run(ck):
             r = ck.rng.fork()
             for i in range(n):
                 cases.append(gen_case(r, name, r.range(4, 9) if quick else r.range(4, 16), quiet=(i % 10 == 9)))
+            # the same loop fed by the module's REAL lister over an in-process S3 endpoint with a fault oracle
+            rl = ck.rng.fork()
+            for i in range(60 if quick else 500):
+                cases.append(gen_lister_case(rl, name, rl.range(3, 7) if quick else rl.range(4, 12)))
             results, crash = run_virtual(ck, bins[name], cases, name)
             if crash:
                 ck.broke("implementation harness (%s) did not answer every case" % name, crash)
